@@ -105,6 +105,8 @@ pub enum RUncle {
     Foreign,
     /// same header (same hash), different proposals
     SameHeaderOtherProposals,
+    /// same header, proposals stripped (1), last id dropped (2), a foreign id appended (3), reversed (4)
+    SameHeaderProposalsForm(u8),
 }
 
 #[derive(Clone, Debug, Default, Serialize, Deserialize)]
@@ -150,6 +152,7 @@ fn runcle() -> impl Strategy<Value = RUncle> {
         1 => any::<u16>().prop_map(RUncle::Other),
         1 => Just(RUncle::Foreign),
         2 => Just(RUncle::SameHeaderOtherProposals),
+        3 => (1u8..5).prop_map(RUncle::SameHeaderProposalsForm),
     ]
 }
 
@@ -852,6 +855,19 @@ fn prop_inner(node: &Node, sc: &Scenario, b: &Built, st: &mut Stats) -> Verdict 
                         .header(u.data().header())
                         .proposals(vec![packed::ProposalShortId::from_tx_hash(&h32(sc.salt, "tampered", k as u64))])
                         .build();
+                    uncles.push(p.into_view());
+                }
+                (RUncle::SameHeaderProposalsForm(form), Some(u)) => {
+                    let mut ids: Vec<packed::ProposalShortId> = u.data().proposals().into_iter().collect();
+                    match form {
+                        1 => ids.clear(),
+                        2 => {
+                            ids.pop();
+                        }
+                        3 => ids.push(packed::ProposalShortId::from_tx_hash(&h32(sc.salt, "tampered", k as u64))),
+                        _ => ids.reverse(),
+                    }
+                    let p = packed::UncleBlock::new_builder().header(u.data().header()).proposals(ids).build();
                     uncles.push(p.into_view());
                 }
             }
